@@ -150,13 +150,16 @@ func vBuildSync(N, R, K, opts int) *vSyncWorld {
 		set.Status.CurrentRevision = sw.upd.Name
 	}
 	own := vOwnerRef(controllerKind.Kind, vSetName, vSetUID)
+	updOwner := 0
 	if opts&yOrphanRevs != 0 && sym.Pick("updorphan", 2) == 1 {
 		sym.Cover("own revision is an orphan")
+		sw.upd.OwnerReferences = nil
+		updOwner = 2
 	} else {
 		sw.upd.OwnerReferences = own
 	}
 	w.apiRevs = append(w.apiRevs, sw.upd)
-	sw.revs = append(sw.revs, &vSyncRev{rev: sw.upd, owner: 0, labels: true})
+	sw.revs = append(sw.revs, &vSyncRev{rev: sw.upd, owner: updOwner, labels: true})
 	if opts&yRevDims != 0 {
 		// one more revision with every owner / label / marker combination
 		x := vRevision(set, "A", 1)
@@ -456,15 +459,20 @@ func (sw *vSyncWorld) monC11(err error) {
 	}
 	if sw.delet {
 		sym.Cover("deleting set reconciled")
+		podWrites, revAdopts := 0, 0
 		for _, op := range w.ops {
 			switch op.verb {
 			case "pod.create", "pod.delete", "pod.update", "pod.patch", "pvc.create":
-				sym.Assert(false, "C11", "no pod or claim write for a set being deleted")
+				podWrites++
 			case "rev.patch":
-				sym.Disc("revision-adopted-while-deleting")
-				sym.Assert(false, "C11", "a set being deleted adopts no revision")
-				sym.Disc("")
+				revAdopts++
 			}
 		}
+		sym.Assert(podWrites == 0, "C11", "no pod or claim write for a set being deleted")
+		if revAdopts > 0 {
+			sym.Disc("revision-adopted-while-deleting")
+		}
+		sym.Assert(revAdopts == 0, "C11", "a set being deleted adopts no revision")
+		sym.Disc("")
 	}
 }
